@@ -242,6 +242,30 @@ def run_function(repo, cls, name, kind, params, spec_module='specs.ir', opts=Non
     return out
 
 
+def run_lemmas(suite, timeout_ms=20000, only=None):
+    """lemmas over contracts (module-level `lemmas(ctx, spec)` of the suite's spec module): pure logic, discharged like any obligation;
+    the hypotheses of every lemma are also checked for satisfiability-in-the-weak-sense (must not be refutable by the cheap stage)"""
+    import importlib
+    SU = SUITES[suite]
+    ctx = Ctx(); ct = ClassTable(repo=os.environ.get('VERIF_REPO', '/repo'))
+    sm = importlib.import_module(SU['module'])
+    spec = getattr(sm, SU['spec_class'])(ctx, ct)
+    out = []
+    vac_done = set()
+    for name, hyps, goal in sm.lemmas(ctx, spec):
+        if only and only not in name: continue
+        st, dt, why, be = discharge(ctx, hyps, goal, timeout_ms, stages='cheap')
+        if st != 'discharged': st, dt2, why, be = discharge(ctx, hyps, goal, timeout_ms); dt += dt2
+        out.append({'name': name, 'status': st, 'time_s': round(dt, 3), 'detail': why, 'backend': be})
+        fam = name.rsplit('/', 1)[0]
+        if fam not in vac_done:
+            vac_done.add(fam)
+            vst, vdt, vwhy, vbe = discharge(ctx, hyps, BoolVal(False), 5000, stages='first')
+            out.append({'name': 'VACUITY/%s/hypotheses-not-refutable' % fam, 'status': 'failed' if vst == 'discharged' else 'discharged',
+                        'time_s': round(vdt, 3), 'detail': 'hypotheses are contradictory' if vst == 'discharged' else '', 'backend': 'z3-ematching'})
+    return out
+
+
 def _worker(job):
     sys.setrecursionlimit(20000)
     repo, cls, name, kind, params, opts = job
@@ -296,6 +320,12 @@ if __name__ == '__main__':
         params = [f for f in FUNCTIONS if f[0] == c and f[1] == n and f[2] == k][0][3]
         r = _worker((os.environ.get('VERIF_REPO', '/repo'), c, n, k, params, opts))
         sys.stdout.write('@@JSON@@' + json.dumps(r))
+        sys.exit(0)
+    if len(sys.argv) > 2 and sys.argv[1] == '--lemmas':
+        res = run_lemmas(sys.argv[2], only=sys.argv[3] if len(sys.argv) > 3 and not sys.argv[3].startswith('--') else None)
+        if '--json' in sys.argv:
+            sys.stdout.write('@@JSON@@' + json.dumps(res)); sys.exit(0)
+        for r in res: print(r['status'], r['name'], r['time_s'], r['backend'], (r['detail'] or '')[:150])
         sys.exit(0)
     sel = sys.argv[1:]
     suite = 'ir'
